@@ -295,7 +295,7 @@ func (m *interp) exec(s *stmt, env *menv, pending *[]mval) ctl {
 		v := m.eval1(s.exps[0], env, s.line)
 		if v.truthy() && !(v.k == vTbl && v.ref.(*mtable).closable) {
 			m.feat["nonclosable"] = true
-			m.raise(m.lineErr(s.line, "RTERR"))
+			m.raise(m.lineErr(s.line, "ERR"))
 		}
 		env.locals[s.name] = &v
 		*pending = append(*pending, v)
@@ -356,7 +356,7 @@ func (m *interp) exec(s *stmt, env *menv, pending *[]mval) ctl {
 		m.feat["error-storm"] = true
 	case sRtErr:
 		m.feat["rterr"] = true
-		m.raise(m.lineErr(s.line, "RTERR"))
+		m.raise(m.lineErr(s.line, "ERR"))
 	}
 	return ctl{}
 }
@@ -429,13 +429,13 @@ func (m *interp) evalMulti(e *expr, env *menv, line int) []mval {
 	case eLt:
 		a, b := m.eval1(e.args[0], env, line), m.eval1(e.args[1], env, line)
 		if a.k != vInt || b.k != vInt {
-			m.raise(m.lineErr(line, "RTERR"))
+			m.raise(m.lineErr(line, "ERR"))
 		}
 		return []mval{boolv(a.i < b.i)}
 	case eAdd:
 		a, b := m.eval1(e.args[0], env, line), m.eval1(e.args[1], env, line)
 		if a.k != vInt || b.k != vInt {
-			m.raise(m.lineErr(line, "RTERR"))
+			m.raise(m.lineErr(line, "ERR"))
 		}
 		return []mval{intv(a.i + b.i)}
 	case eProbeVal:
@@ -491,7 +491,7 @@ func (m *interp) call(f mval, args []mval, line int, _ bool) []mval {
 		}
 		return vals
 	}
-	m.raise(m.lineErr(line, "RTERR"))
+	m.raise(m.lineErr(line, "ERR"))
 	return nil
 }
 
@@ -542,7 +542,7 @@ func (m *interp) builtin(name string, args []mval, line int) []mval {
 	case "coroutine.create", "coroutine.wrap":
 		f := arg(0)
 		if f.k != vFn {
-			m.raise(m.lineErr(line, "GOERR"))
+			m.raise(m.lineErr(line, "ERR"))
 		}
 		co := &mco{status: "suspended", fn: m.funcs[f.s], in: make(chan xfer), out: make(chan xfer)}
 		m.cos = append(m.cos, co)
@@ -554,7 +554,7 @@ func (m *interp) builtin(name string, args []mval, line int) []mval {
 	case "coroutine.resume":
 		c := arg(0)
 		if c.k != vCo {
-			m.raise(m.lineErr(line, "GOERR"))
+			m.raise(m.lineErr(line, "ERR"))
 		}
 		ok, vals, errv := m.resume(c.ref.(*mco), args[1:])
 		if ok {
@@ -563,13 +563,13 @@ func (m *interp) builtin(name string, args []mval, line int) []mval {
 		return []mval{boolv(false), errv}
 	case "coroutine.yield":
 		if m.cur == m.mainCo {
-			m.raise(m.lineErr(line, "GOERR"))
+			m.raise(m.lineErr(line, "ERR"))
 		}
 		return m.yield(args)
 	case "coroutine.status":
 		c := arg(0)
 		if c.k != vCo {
-			m.raise(m.lineErr(line, "GOERR"))
+			m.raise(m.lineErr(line, "ERR"))
 		}
 		co := c.ref.(*mco)
 		st := co.status
@@ -582,13 +582,13 @@ func (m *interp) builtin(name string, args []mval, line int) []mval {
 	case "coroutine.close":
 		c := arg(0)
 		if c.k != vCo {
-			m.raise(m.lineErr(line, "GOERR"))
+			m.raise(m.lineErr(line, "ERR"))
 		}
 		co := c.ref.(*mco)
 		m.feat["co-close"] = true
 		switch {
 		case co == m.cur || co.status == "running" || co.status == "normal":
-			m.raise(m.lineErr(line, "GOERR"))
+			m.raise(m.lineErr(line, "ERR"))
 		case co.status == "dead":
 			if co.cerr != nil {
 				return []mval{boolv(false), *co.cerr}
